@@ -15,9 +15,15 @@ def gen(rng, thorough):
     n = rng.randint(1, 8 if not thorough else 20)
     q = [rng.randint(-2, 2) for _ in range(lq * nd)]
     cands = []
+    stretch = rng.random() < 0.3      # near-copies of the query with a repeated or a dropped sample
     for _ in range(n):
         if cands and rng.random() < 0.25:
             cands.append(list(rng.choice(cands)))        # duplicates -> ties
+        elif stretch and rng.random() < 0.6 and lq >= 2:
+            pts = [q[i * nd:(i + 1) * nd] for i in range(lq)]
+            j = rng.randrange(lq)
+            pts = pts[:j] + [pts[j]] * rng.choice([2, 2, 3]) + pts[j + 1:] if rng.random() < 0.6 else pts[:j] + pts[j + 1:]
+            cands.append([v for pt in pts for v in pt])
         else:
             l = lq if rng.random() < 0.6 else rng.randint(1, 7)
             cands.append([rng.randint(-2, 2) for _ in range(l * nd)])
@@ -26,6 +32,8 @@ def gen(rng, thorough):
         opts["window"] = rng.choice([1, 2, 3])
     if rng.random() < 0.4:
         opts["penalty"] = float(rng.choice([1, 2]))
+    elif stretch or rng.random() < 0.15:
+        opts["penalty"] = rng.choice([0.1, 0.25, 0.5])      # below 1: the squared penalty is smaller than the penalty
     if rng.random() < 0.2:
         opts["psi"] = rng.choice([1, (1, 0, 1, 0), (0, 1, 0, 1)])
     return nd, q, cands, opts
@@ -59,12 +67,13 @@ def run(ctx):
         mv = None
         finite = sorted(d for d in exhaustive if not math.isinf(d))
         r0 = rng.random()
+        small = [0.02, 0.05] if not float(opts.get("penalty", 0)).is_integer() else []     # just above a near-copy
         if finite and r0 < 0.3:
-            md = rng.choice(finite) + rng.choice([0.25, -0.25, 3.0])
+            md = rng.choice(finite) + rng.choice([0.25, -0.25, 3.0] + small + small)
             if md <= 0:
                 md = None
-        elif finite and r0 < 0.4:
-            mv = (rng.choice(finite) + 0.25) / len(qa)
+        elif finite and r0 < (0.4 if not small else 0.6):
+            mv = (rng.choice(finite) + rng.choice([0.25] + small + small)) / len(qa)
         # a threshold given through dists_options: used when the max_dist argument is absent, combined with max_value
         omd = None
         if finite and rng.random() < 0.25:
@@ -148,7 +157,8 @@ def run(ctx):
                 res.violations.append(dict(info, clause="kbest_matches(k=None) raised",
                                            got=impl.exc_name(e) + ":" + str(e)[:80]))
         # correspondence with the Lean model (exact internal distances and lower bounds; univariate, no psi)
-        if nd == 1 and "psi" not in opts and md is None and mv is None and omd is None:
+        if nd == 1 and "psi" not in opts and md is None and mv is None and omd is None and \
+                float(opts.get("penalty", 0)).is_integer():
             base = {"ndim": 1, "inner": "sq", "window": opts.get("window"),
                     "penalty": int(opts["penalty"]) if "penalty" in opts else None}
             dops = [dc.lean_op(dict(base, s1=q, s2=c), engine="py") for c in cands] + \
